@@ -468,7 +468,7 @@ func (c *cluster) commit(n ch.NodeID, expected replication.AuthorityID, cmd comm
 	cancel()
 	c.event(kit.Ev("CommitRet", "n", int(n), "cmd", cmdHex(cmd.id), "ok", err == nil, "err", errClass(err),
 		"first", int64(rc.First), "last", int64(rc.Last), "hw", int64(rc.HW), "auth", authInt(rc.Authority), "exp", authInt(expected),
-		"nrec", len(cmd.records), "changed", changed))
+		"nrec", len(cmd.records), "variant", variantOf(changed)))
 	return rc, err
 }
 
@@ -500,4 +500,11 @@ func (c *cluster) view(n ch.NodeID) (replicaView, error) {
 		v.ids = append(v.ids, dig(e.Identity.Digest))
 	}
 	return v, nil
+}
+
+func variantOf(changed bool) int {
+	if changed {
+		return 7
+	}
+	return 0
 }
